@@ -468,7 +468,7 @@ def handle_output(
         json_results = [output.to_json() for output in expanded_detector_results]
 
         json_output = {
-            "success": error is not None,
+            "success": error is None,
             "error": error,
             "result": json_results,
         }
